@@ -4,6 +4,7 @@
 #include <stdio.h>
 #include <stdlib.h>
 #include <string.h>
+#include <signal.h>
 #include <sys/wait.h>
 #include <unistd.h>
 #include "rt.h"
@@ -45,6 +46,28 @@ static int h_parse(char* line, hcase_t* c) {
   return 1;
 }
 
+/* a crash inside the code under test: print the trace gathered so far followed
+ * by the marker event (-9 -9 -9 signal) so that monitors can still judge it */
+static void h_crash_handler(int sig) {
+  rt_event(-9, -1, sig);
+  rt_print_trace_crash(sig);
+  fflush(stdout);
+  _exit(0);
+}
+static void h_install_crash_handler(void) {
+  static char altstack[1 << 16];
+  stack_t ss = {.ss_sp = altstack, .ss_size = sizeof altstack, .ss_flags = 0};
+  sigaltstack(&ss, NULL);
+  struct sigaction sa;
+  memset(&sa, 0, sizeof sa);
+  sa.sa_handler = h_crash_handler;
+  sa.sa_flags = SA_ONSTACK | SA_NODEFER;
+  sigaction(SIGSEGV, &sa, NULL);
+  sigaction(SIGBUS, &sa, NULL);
+  sigaction(SIGILL, &sa, NULL);
+  sigaction(SIGABRT, &sa, NULL);
+}
+
 /* the harness defines this: set up objects, rt_reg them, rt_run, rt_print_trace */
 static void h_run_case(hcase_t* c);
 
@@ -57,6 +80,7 @@ static int h_main(void) {
       static hcase_t c;
       if (!h_parse(line, &c)) { printf("-1\n"); fflush(stdout); _exit(0); }
       rt_reset();
+      h_install_crash_handler();
       h_run_case(&c);
       fflush(stdout);
       _exit(0);
